@@ -879,7 +879,7 @@ def check(ctx, case):
 
 def search(ctx):
     _q()
-    # per worker (quick: 2 workers, thorough: 16 -> 19 200 meta + 64 000 analytic cases); a meta case is 12-35
-    # reconstructions (~0.1 s), an analytic one ~10 ms
-    core.run_given(ctx, "meta", meta_cases(), lambda c: check(ctx, c), ctx.n(200, 1200))
-    core.run_given(ctx, "analytic", analytic_cases(), lambda c: check(ctx, c), ctx.n(350, 4000))
+    # per worker (quick: 2 workers, thorough: 16 -> 12 800 meta + 48 000 analytic cases); a meta case is 15-40
+    # reconstructions (~0.25 s incl. generation), an analytic one ~10 ms
+    core.run_given(ctx, "meta", meta_cases(), lambda c: check(ctx, c), ctx.n(200, 800))
+    core.run_given(ctx, "analytic", analytic_cases(), lambda c: check(ctx, c), ctx.n(350, 3000))
